@@ -21,7 +21,7 @@ LEVEL_TEXT = (
     "declared endpoints, each program node declared once with the right visibility, each leaf dependency covered by an edge between visible "
     "representatives, no edge without a dependency; Mermaid source parsed at every depth and mode with the same oracle; to_flat_graph ids/parents."
 )
-LEVEL_NOTE = "renamed container inputs/outputs are outside the quantifier and the alphabet; an INPUT node owned by a collapsed container is declared-but-hidden by design and may carry its edge (DESIGN C20 O)"
+LEVEL_NOTE = 'renamed container inputs/outputs are outside the quantifier and the alphabet; an INPUT node owned by a collapsed container is declared-but-hidden by design and may carry its edge (DESIGN C20 O); templates include emitting gates, END at two levels, prefix-named siblings, innermost producer consumed at the root'
 RULE = "programs x expansion states x modes; distinct_nontrivial = distinct (program, state, mode) renders with >=1 container"
 ASSUMPTIONS = ["a control or ordering dependency between two nodes that also have a data dependency may be drawn as that data edge (the graph keeps one edge per pair)"]
 
